@@ -379,6 +379,16 @@ func run(tc *tcase) Sx {
 		T("sorts", Ints(sortD), Ints(sortA)), csort, T("szc", szc...), result)
 }
 
+// The change list of a case is the field `changes`, which ./check shrinks after a failure.  Its shrinker builds one
+// candidate per removable element before it runs any (memory quadratic in the length, and every candidate would
+// cost seconds to replay), so the list of a large case goes under another name and is reported as it is.
+func changesField(n int) string {
+	if n > 5000 {
+		return "bigchanges"
+	}
+	return "changes"
+}
+
 var kindTime = map[string]time.Duration{}
 
 func emit(c *Config, tc *tcase) {
@@ -413,7 +423,7 @@ func emit(c *Config, tc *tcase) {
 		sq[i] = L(I64(q[0]), I64(q[1]))
 	}
 	c.Emit(T("kind", A(tc.kind)), T("nt", B(na >= 1 && nd >= 1)), T("thr", I(tc.thr)), T("timeout", I64(tc.timeout)),
-		T("procs", I(tc.procs)), T("spin", I(tc.spin)), T("blobs", bl...), T("szq", sq...), T("changes", cs...), obs)
+		T("procs", I(tc.procs)), T("spin", I(tc.spin)), T("blobs", bl...), T("szq", sq...), T(changesField(len(cs)), cs...), obs)
 }
 
 func replayCase(s Sx) *tcase {
@@ -440,7 +450,11 @@ func replayCase(s Sx) *tcase {
 		}
 		tc.blobs = append(tc.blobs, blob{h, parseDesc(b.List[1])})
 	}
-	for _, ch := range get("changes").Args() {
+	chf, ok := s.Field("changes")
+	if !ok {
+		chf = get("bigchanges")
+	}
+	for _, ch := range chf.Args() {
 		tc.changes = append(tc.changes, parseChange(ch))
 	}
 	if f, ok := s.Field("szq"); ok {
@@ -1205,40 +1219,39 @@ func scaleStage2(c *Config, n, classes, thr int, timeout int64) *tcase {
 }
 
 // exactly `left` changes are left over by stage 1 (no hash is shared), around RenameAnalysisSetSizeLimit: above
-// it the candidate cap drops from 50 to 1.  Every deleted blob has its only similar partner as the third
-// candidate by name distance at least, so the cap decides whether the rename is found.
+// it the candidate cap drops from 50 to 1.  In every size class a quarter of the deleted and a quarter of the added
+// blobs are similar to each other, the rest is dissimilar to everything: whether a blob finds its partner among
+// the ~75 candidates depends on the cap, for matchA as well as for matchB.
 func limitCase(c *Config, left int) *tcase {
 	r := c.Rng
 	tc := &tcase{kind: "limit", thr: 80, timeout: hour, procs: 1 + 15*r.Intn(2)}
-	// groups of one deleted and four added files of one size class (x1.3 apart: not size-close at threshold 80)
-	groups := left / 5
-	sz := 100
+	groups := left / 8
+	sz := 40
 	classes := 10
 	for k := 0; k < classes; k++ {
+		// x1.3 apart: not size-close at threshold 80.  The dissimilar blobs share a prefix with the others and end in
+		// 30 % / 60 % other bytes (similarity 70 % and less, and cheap for diffmatchpatch)
+		t := sz * 3 / 10
 		tc.blobs = append(tc.blobs, blob{randHash(c), descOfSize(sz, k, 0)}, blob{randHash(c), descOfSize(sz+1, k, 0)},
-			blob{randHash(c), descOfSize(sz, k, 5)}, blob{randHash(c), descOfSize(sz+1, k, 7)})
+			blob{randHash(c), blobDesc{fam: k, nlines: 1, width: sz - 7 - t, tail: t}},
+			blob{randHash(c), blobDesc{fam: k, nlines: 1, width: sz + 1 - 7 - 2*t, tail: 2 * t}})
 		sz = sz * 13 / 10
 	}
 	small := len(tc.blobs)
 	tc.blobs = append(tc.blobs, blob{randHash(c), tinyDesc(5)})
+	// names at random: the name distance must say nothing about who belongs to whom
+	names := r.Perm(4 * left)
 	nm := 0
+	next := func() int { nm++; return names[nm-1] }
 	for g := 0; g < groups; g++ {
 		k := g % classes
-		tc.changes = append(tc.changes, change{kind: "d", name: nm, from: 4 * k})
-		// one similar addition (one byte longer) and three dissimilar ones
-		sim := r.Intn(4)
-		for i := 0; i < 4; i++ {
-			b := 4*k + 2 + r.Intn(2)
-			if i == sim {
-				b = 4*k + 1
-			}
-			tc.changes = append(tc.changes, change{kind: "a", name: nm + 1 + i, to: b})
+		tc.changes = append(tc.changes, change{kind: "d", name: next(), from: 4 * k}, change{kind: "a", name: next(), to: 4*k + 1})
+		for i := 0; i < 3; i++ {
+			tc.changes = append(tc.changes, change{kind: "d", name: next(), from: 4*k + 2}, change{kind: "a", name: next(), to: 4*k + 3})
 		}
-		nm += 5
 	}
 	for len(tc.changes) < left {
-		tc.changes = append(tc.changes, change{kind: "a", name: nm, to: small})
-		nm++
+		tc.changes = append(tc.changes, change{kind: "a", name: next(), to: small})
 	}
 	r.Shuffle(len(tc.changes), func(i, j int) { tc.changes[i], tc.changes[j] = tc.changes[j], tc.changes[i] })
 	assignModes(c, tc, true)
@@ -1258,7 +1271,7 @@ func scaleFamily(c *Config) {
 	emit(c, scaleStage1(c, 10000, 5000, "be17", "desc", "alt", hour))
 	emit(c, scaleStage1(c, 10007, 10007, "le0", "asc", "halves", hour))
 	emit(c, scaleStage1(c, 16385, 4096, "be0", "per4095", "few", ms))
-	emit(c, scaleStage1(c, 100003, 4099, "be17", "rand", "rand", hour))
+	emit(c, scaleStage1(c, 70001, 4099, "be17", "rand", "rand", hour))
 	for _, left := range []int{api.RenameAnalysisSetSizeLimit - 1, api.RenameAnalysisSetSizeLimit, api.RenameAnalysisSetSizeLimit + 1, api.RenameAnalysisSetSizeLimit + 2} {
 		emit(c, limitCase(c, left))
 	}
